@@ -215,8 +215,8 @@ func (f *Frame) unknownCall(x ssa.Value, key string, args []*Val, rts []types.Ty
 	var vals []*Val
 	for i, t := range rts {
 		v := &Val{T: c.freshConst(fmt.Sprintf("unk.%s.%d", sanitize(key), i), c.sortOf(t)), Typ: t, ConstLen: -1}
-		e.assumeTypeInv(st, v.T, t, f.guard())
 		f.allocResult(st, v)
+		e.assumeTypeInv(st, v.T, t, f.guard())
 		vals = append(vals, v)
 	}
 	e.noteUnknown(key)
@@ -388,7 +388,30 @@ func (f *Frame) applyContract(x ssa.Value, fc *FuncContract, fn *ssa.Function, k
 		}
 	}
 	guard := and(f.guard(), reqAll)
+	// a pure function whose contract promises a fresh result: the promise is used
+	// only for the first application of this exact term (two applications denote
+	// the same term, and one object cannot be fresh twice)
+	skipFresh := false
+	if fc.Pure && len(vals) > 0 {
+		appKey := vals[0].T
+		if e.freshApplied == nil {
+			e.freshApplied = map[string]bool{}
+		}
+		full := e.pureUF(key, 0, args, rts[0], st.tok)
+		appKey = full
+		if e.freshApplied[appKey] {
+			skipFresh = true
+		}
+		e.freshApplied[appKey] = true
+	}
+	mentionsFresh := false
 	for _, en := range fc.Ensures {
+		if exprCalls(en.E, "fresh") {
+			if skipFresh {
+				continue
+			}
+			mentionsFresh = true
+		}
 		g, err := post.evalBool(en.E)
 		if err != nil {
 			e.errorf("%s: ensures of %s: %v", f.prefix, key, err)
@@ -397,12 +420,60 @@ func (f *Frame) applyContract(x ssa.Value, fc *FuncContract, fn *ssa.Function, k
 		c.assert(implies(guard, g))
 	}
 	for _, v := range vals {
-		e.assumeTypeInv(st, v.T, v.Typ, f.guard())
-		if !fc.Pure {
+		if !fc.Pure || mentionsFresh {
 			f.allocResult(st, v)
 		}
+		e.assumeTypeInv(st, v.T, v.Typ, f.guard())
+	}
+	if call, ok := x.(*ssa.Call); ok && (mentionsFresh || (!fc.Pure && fc.freshResults() != nil)) && !skipFresh {
+		fr := map[int]bool{}
+		for i, n := range names {
+			if fc.freshResults()[n] {
+				fr[i] = true
+			}
+		}
+		freshCalls[call] = fr
 	}
 	f.setResult(x, vals, names)
+}
+
+// freshResults lists the result names the contract promises to be fresh.
+func (fc *FuncContract) freshResults() map[string]bool {
+	var out map[string]bool
+	var walk func(e *Expr)
+	walk = func(e *Expr) {
+		if e == nil {
+			return
+		}
+		if e.Op == "call" && e.Args[0].Op == "id" && e.Args[0].Name == "fresh" && len(e.Args) == 2 && e.Args[1].Op == "id" {
+			if out == nil {
+				out = map[string]bool{}
+			}
+			out[e.Args[1].Name] = true
+		}
+		for _, a := range e.Args {
+			walk(a)
+		}
+	}
+	for _, en := range fc.Ensures {
+		walk(en.E)
+	}
+	return out
+}
+
+func exprCalls(e *Expr, name string) bool {
+	if e == nil {
+		return false
+	}
+	if e.Op == "call" && e.Args[0].Op == "id" && e.Args[0].Name == name {
+		return true
+	}
+	for _, a := range e.Args {
+		if exprCalls(a, name) {
+			return true
+		}
+	}
+	return false
 }
 
 func shortKey(k string) string {
@@ -586,7 +657,7 @@ func (f *Frame) encodeBuiltin(x ssa.Value, b *ssa.Builtin, cc *ssa.CallCommon, s
 
 func (f *Frame) noteRawWrite(st *State, base, what string, target ssa.Value) {
 	fresh := false
-	if r := rootAlloc(target); r != nil && !f.escaped[r] && r.Parent() == f.fn {
+	if r := rootAlloc(target); r != nil && !f.hasEscaped(r) && valueParent(r) == f.fn {
 		fresh = true
 	}
 	if !fresh {
